@@ -817,6 +817,108 @@ fn scenario_power_levels(vname: &str, rules: &AuthorizationRules, thorough: bool
     }
 }
 
+/// C20: each RoomPowerLevels helper answers yes exactly when the REAL auth_check accepts the corresponding event from
+/// that user as a joined member of a room with those power levels (room versions 3-11), and for notifications when the
+/// real push condition `sender_notification_permission` holds.
+fn scenario_helpers(vname: &str, rules: &AuthorizationRules, acc: &mut Acc) {
+    use ruma_common::push::{FlattenedJson, PushCondition, PushConditionRoomCtx};
+    use ruma_common::serde::Raw;
+    use ruma_events::{room::power_levels::{RoomPowerLevels, RoomPowerLevelsEventContent}, MessageLikeEventType};
+    if rules.special_case_room_redaction {
+        return; // room versions 1-2 are outside the property's range
+    }
+    let lvs: [Option<i64>; 4] = [None, Some(0), Some(50), Some(100)];
+    let reprs: &[bool] = if rules.integer_power_levels { &[false] } else { &[false, true] };
+    let b = OwnedUserId::try_from(B).unwrap();
+    let c = OwnedUserId::try_from(C).unwrap();
+    for &as_str in reprs {
+        let lv = |x: Option<i64>| x.map(|i| if as_str { Lv::Str(i) } else { Lv::Int(i) });
+        for lb in lvs {
+            for lc in lvs {
+                for ud in [None, Some(50i64)] {
+                    for (ban, kick, invite) in [(None, None, None), (Some(0), Some(100), Some(50)), (Some(100), Some(0), Some(100)), (Some(50), Some(50), Some(0))] {
+                        for (ev_entry, sd, ed, notif) in [(None, None, None, None), (Some(50i64), Some(100i64), Some(0i64), Some(0i64)), (Some(0), Some(0), Some(100), Some(100)), (Some(100), Some(50), Some(50), Some(50))] {
+                            let mut pl = Pl { ban: lv(ban), kick: lv(kick), invite: lv(invite), users_default: lv(ud), state_default: lv(sd), events_default: lv(ed), ..Default::default() };
+                            if let Some(l) = lv(lb) {
+                                pl.users.push((B.into(), l));
+                            }
+                            if let Some(l) = lv(lc) {
+                                pl.users.push((C.into(), l));
+                            }
+                            if let Some(l) = lv(ev_entry) {
+                                pl.events.push(("m.room.message".into(), l.clone()));
+                                pl.events.push(("m.room.name".into(), l));
+                            }
+                            if let Some(l) = lv(notif) {
+                                pl.notifications.push(("room".into(), l));
+                            }
+                            let content: RoomPowerLevelsEventContent = match serde_json::from_value(pl.json()) {
+                                Ok(c) => c,
+                                Err(e) => {
+                                    if acc.f.len() < 25 {
+                                        acc.f.push(json!({"rules": vname, "power_levels": pl.json(), "observed": format!("content does not deserialize: {e}")}));
+                                    }
+                                    continue;
+                                }
+                            };
+                            let helper = RoomPowerLevels::from(content);
+                            // (name, helper's answer, corresponding event, target's current membership)
+                            let cases: Vec<(&str, bool, Ev, &str)> = vec![
+                                ("user_can_ban_user", helper.user_can_ban_user(&b, &c), base_ev("m.room.member", B, Some(C), json!({"membership": "ban"})), "join"),
+                                ("user_can_kick_user", helper.user_can_kick_user(&b, &c), base_ev("m.room.member", B, Some(C), json!({"membership": "leave"})), "join"),
+                                ("user_can_unban_user", helper.user_can_unban_user(&b, &c), base_ev("m.room.member", B, Some(C), json!({"membership": "leave"})), "ban"),
+                                ("user_can_invite", helper.user_can_invite(&b), base_ev("m.room.member", B, Some(C), json!({"membership": "invite"})), "leave"),
+                                ("user_can_send_message", helper.user_can_send_message(&b, MessageLikeEventType::RoomMessage), base_ev("m.room.message", B, None, json!({"body": "x"})), "join"),
+                                ("user_can_send_state", helper.user_can_send_state(&b, StateEventType::RoomName), base_ev("m.room.name", B, Some(""), json!({"name": "x"})), "join"),
+                            ];
+                            for (name, answer, ev, mt) in cases {
+                                acc.n += 1;
+                                let st = St { create: Some((A.into(), true, None)), pl: Some(pl.clone()), join_rule: Some("invite".into()), members: members(&[(B, "join"), (C, mt), (A, "join")]) };
+                                let rst = render_state(&st);
+                                match real(rules, &rst, &ev) {
+                                    Err(_) => acc.fp.push(describe(vname, &st, &ev, json!("panic"), answer)),
+                                    Ok(got) => {
+                                        if got {
+                                            acc.accepted += 1;
+                                        }
+                                        if got != answer && acc.f.len() < 25 {
+                                            let mut d = describe(vname, &st, &ev, json!(got), O { rules, st: &st }.auth(&ev));
+                                            d["helper"] = json!(name);
+                                            d["helper_answer"] = json!(answer);
+                                            acc.f.push(d);
+                                        }
+                                    }
+                                }
+                            }
+                            // effective level and the notification helper vs the real push condition
+                            acc.n += 1;
+                            let want_level = lb.or(ud).unwrap_or(0);
+                            if i64::from(helper.for_user(&b)) != want_level && acc.f.len() < 25 {
+                                acc.f.push(json!({"rules": vname, "power_levels": pl.json(), "helper": "for_user", "helper_answer": i64::from(helper.for_user(&b)), "expected": want_level}));
+                            }
+                            let ctx = PushConditionRoomCtx {
+                                room_id: OwnedRoomId::try_from("!r:s").unwrap(),
+                                member_count: 2u32.into(),
+                                user_id: c.clone(),
+                                user_display_name: "c".into(),
+                                power_levels: Some(helper.clone().into()),
+                            };
+                            let raw: Raw<Value> = Raw::new(&json!({"sender": B, "content": {}})).unwrap();
+                            let flat = FlattenedJson::from_raw(&raw);
+                            let cond: PushCondition = serde_json::from_value(json!({"kind": "sender_notification_permission", "key": "room"})).unwrap();
+                            let push = cond.applies(&flat, &ctx);
+                            if push != helper.user_can_trigger_room_notification(&b) && acc.f.len() < 25 {
+                                acc.f.push(json!({"rules": vname, "power_levels": pl.json(), "helper": "user_can_trigger_room_notification",
+                                    "helper_answer": helper.user_can_trigger_room_notification(&b), "push_condition_holds": push}));
+                            }
+                        }
+                    }
+                }
+            }
+        }
+    }
+}
+
 pub fn run(tier: &str) -> Report {
     let thorough = tier == "thorough";
     let versions: Vec<(&'static str, AuthorizationRules)> = vec![
@@ -830,7 +932,7 @@ pub fn run(tier: &str) -> Report {
     ];
     let handles: Vec<_> = versions
         .into_iter()
-        .flat_map(|(vn, r)| (0..4).map(move |part| (vn, r.clone(), part)))
+        .flat_map(|(vn, r)| (0..5).map(move |part| (vn, r.clone(), part)))
         .map(|(vn, rules, part)| {
             std::thread::spawn(move || {
                 let mut acc = Acc { n: 0, accepted: 0, fsel: vec![], f: vec![], fp: vec![] };
@@ -838,15 +940,16 @@ pub fn run(tier: &str) -> Report {
                     0 => scenario_membership(vn, &rules, thorough, &mut acc),
                     1 => scenario_generic(vn, &rules, &mut acc),
                     2 => scenario_power_levels(vn, &rules, thorough, &mut acc),
-                    _ => scenario_create(vn, &rules, &mut acc),
+                    3 => scenario_create(vn, &rules, &mut acc),
+                    _ => scenario_helpers(vn, &rules, &mut acc),
                 }
                 (part, acc)
             })
         })
         .collect();
-    let mut n = [0u64; 4];
-    let mut acc_n = [0u64; 4];
-    let mut f: [Vec<Value>; 4] = Default::default();
+    let mut n = [0u64; 5];
+    let mut acc_n = [0u64; 5];
+    let mut f: [Vec<Value>; 5] = Default::default();
     let mut fp = vec![];
     let mut fsel = vec![];
     for h in handles {
@@ -874,13 +977,14 @@ pub fn run(tier: &str) -> Report {
         }
     }
     let total: u64 = n.iter().sum();
+    let _ = total;
     // vacuity guard: every scenario must contain events the rules accept and events they reject
-    for part in 0..4 {
+    for part in 0..5 {
         if acc_n[part] == 0 || acc_n[part] == n[part] {
             fp.push(json!({"observed": format!("scenario {part} is vacuous: {} of {} cases accepted by the rules", acc_n[part], n[part])}));
         }
     }
-    let [f0, f1, f2, f3] = f;
+    let [f0, f1, f2, f3, f4] = f;
     Report {
         bound: format!(
             "7 distinct AuthorizationRules (room versions 1-11) x membership transitions: {} cases (2 senders x 3 targets x 6x6 current memberships x 5{} power-level shapes x levels {{0,50,100}}^2 x 7 join rules x 6 memberships x authorising user x prev_events shapes); other event types: {} cases; power-level changes: {} cases (7 fields + events/notifications/users entries x 7x7 current/new values incl. string and malformed levels x sender level in {}); create: {} cases; accepted by the rules: {:?} of {:?}",
@@ -892,6 +996,7 @@ pub fn run(tier: &str) -> Report {
             ("other_event_types_accepted_exactly_as_the_rules_say", n[1], f1),
             ("power_level_changes_accepted_exactly_as_the_rules_say", n[2], f2),
             ("room_creation_accepted_exactly_as_the_rules_say", n[3], f3),
+            ("power_level_helpers_answer_as_auth_check_decides", n[4], f4),
             ("decision_depends_only_on_the_selected_auth_state_entries", total, fsel),
             ("auth_check_never_panics", total, fp),
         ],
